@@ -484,6 +484,10 @@ size_t ZSTD_seekable_initAdvanced(ZSTD_seekable* zs, ZSTD_seekable_customFile sr
 size_t ZSTD_seekable_decompress(ZSTD_seekable* zs, void* dst, size_t len, unsigned long long offset)
 {
     unsigned long long const eos = zs->seekTable.entries[zs->seekTable.tableLen].dOffset;
+    if (offset > eos) {
+        /* nothing there : eos - offset below would wrap and be returned as a size */
+        return ERROR(frameIndex_tooLarge);
+    }
     if (offset + len > eos) {
         len = eos - offset;
     }
@@ -563,9 +567,16 @@ size_t ZSTD_seekable_decompress(ZSTD_seekable* zs, void* dst, size_t len, unsign
 
                 if (zs->decompressedOffset < offset + len) {
                     /* go back to the start and force a reset of the stream */
+                    U32 const finishedFrame = targetFrame;
                     targetFrame = ZSTD_seekable_offsetToFrameIndex(zs, zs->decompressedOffset);
                     /* in this case it will fail later with corruption_detected, since last block does not have checksum */
                     assert(targetFrame != zs->seekTable.tableLen);
+                    if (targetFrame == finishedFrame) {
+                        /* the frame is complete, yet the seek table places the next byte inside it :
+                         * the table does not describe this frame, and decoding it again would never end */
+                        zs->curFrame = (U32)-1;
+                        return ERROR(corruption_detected);
+                    }
                 }
                 break;
             }
